@@ -544,9 +544,17 @@ func dcopyJob(cases []*dcopyCase) *genJob {
 	// then two over the real sources — those two are what is compared and judged
 	job := &genJob{Files: map[string]string{"rt/rt.go": dcopyRtPkg}, Gens: []string{"deepcopy"}, Runs: 3, ProbeCommon: dcopyProbeCommon + dcopyProbeMap, Probes: map[string]string{}}
 	job.Edits = []map[string]string{{}}
+	if len(cases)%2 == 1 {
+		// a module written for an older language version (every other batch): what is generated for it has to compile there
+		job.GoVer = "1.20"
+	}
 	for i, c := range cases {
 		pkg := fmt.Sprintf("p%d", i)
 		job.Files[pkg+"/a.go"] = c.source(pkg)
+		if i%7 == 3 {
+			// the package has names of its own for what newer language versions predeclare
+			job.Files[pkg+"/names.go"] = "package " + pkg + "\n\nvar clear, min, max = 1, 2, 3\n\nvar _ = clear + min + max\n"
+		}
 		job.Edits[0][pkg+"/"+pipeBase+".deepcopy.go"] = "\x00delete"
 		if m, ok := c.morphed(pkg); ok {
 			job.Edits[0][pkg+"/a.go"] = job.Files[pkg+"/a.go"]
